@@ -139,17 +139,27 @@ def plainBlock (r : List Char) : Slash :=
   | some rest => .skip rest
   | Option.none => .bad
 
-/-- `skip_whitespace`'s comment cases and `doc_comment_contents`, for a text starting with `/` -/
+/-- `skip_whitespace`'s comment cases and `doc_comment_contents`, for a text starting with `/`:
+    `//!` and `///` (but not `////`) are doc comments, `/**/` is an empty comment, `/*!` and
+    `/**` (but not `/***`) are doc comments -/
 def scanSlash : List Char → Slash
-  | '/' :: '/' :: '!' :: r => docLine true r
-  | '/' :: '/' :: '/' :: '/' :: r => .skip (untilNl r).2
-  | '/' :: '/' :: '/' :: r => docLine false r
-  | '/' :: '/' :: r => .skip (untilNl r).2
-  | '/' :: '*' :: '*' :: '/' :: r => .skip r
-  | '/' :: '*' :: '!' :: r => docBlock true ('!' :: r)
-  | '/' :: '*' :: '*' :: '*' :: r => plainBlock ('*' :: '*' :: r)
-  | '/' :: '*' :: '*' :: r => docBlock false ('*' :: r)
-  | '/' :: '*' :: r => plainBlock r
+  | '/' :: '/' :: r =>
+    match r with
+    | '!' :: r' => docLine true r'
+    | '/' :: r' =>
+      (match r' with
+       | '/' :: r'' => .skip (untilNl r'').2
+       | _ => docLine false r')
+    | _ => .skip (untilNl r).2
+  | '/' :: '*' :: r =>
+    match r with
+    | '!' :: _ => docBlock true r
+    | '*' :: r' =>
+      (match r' with
+       | '/' :: r'' => .skip r''
+       | '*' :: _ => plainBlock r
+       | _ => docBlock false r)
+    | _ => plainBlock r
   | _ => .none
 
 /-! ## literals -/
